@@ -254,6 +254,21 @@ class Driver(hist.Driver):
         exc = self.do_save(w, op)
         after = dump(w.path)
         w.viol = []
+        # a reader looks at the container between the saves (what a reader
+        # gets later must not depend on it)
+        try:
+            from nanite.rate.io import RateManager
+            rm = RateManager(w.path)
+            nread = len(rm.ratings)
+            nsamp = len(rm.samples) if nread else 0
+            if nread != nsamp:
+                w.viol.append(("entry-lost", f"RateManager reads {nread} "
+                               f"ratings but {nsamp} feature rows"))
+        except BaseException as e:
+            if isinstance(e, (KeyboardInterrupt, SystemExit, MemoryError)):
+                raise
+            w.viol.append(("load-raises", f"RateManager(container) raised "
+                           f"{e!r} after this save"))
         gid = None
         for g in after:
             pass
